@@ -118,4 +118,14 @@ let run (toks : string list) (cout : string list) : string =
   | ["vdst"; op; a; b; _] -> vdst op a b cout
   | "idst" :: _ -> if all_equal cout && cout <> [] then "CHECK ok" else "CHECK fail: interval results differ between output operands"
   | "rc" :: rest -> rc rest
+  | "vlist" :: nv :: ids ->
+    (* plain list semantics: position of first occurrence; every pushed id is contained; order = list position *)
+    let nv = int_of_string nv in
+    let ids = List.filter (fun i -> i >= 0 && i < nv) (List.map int_of_string ids) in
+    let distinct = List.fold_left (fun acc i -> if List.mem i acc then acc else acc @ [i]) [] ids in
+    let pos i = let rec go k = function [] -> -1 | x :: r -> if x = i then k else go (k + 1) r in go 0 distinct in
+    let b x = if List.mem x distinct then "1" else "0" in
+    let per = String.concat "" (List.map (fun i -> Printf.sprintf "%d:%d:1 " i (pos i)) ids) in
+    let cmp = (match ids with a :: c :: _ -> Printf.sprintf " cmp:%d" (compare (pos a) (pos c)) | _ -> "") in
+    Printf.sprintf "%s| 0:%s %d:%s%s size:%d" per (b 0) (nv - 1) (b (nv - 1)) cmp (List.length distinct)
   | _ -> "UNKNOWN-OP"
